@@ -586,9 +586,72 @@ def embedded_environments(case):
             'stats': {'embedded_environments': 1, 'activations': sess.n}}
 
 
+def extreme_values(case):
+    """valid arguments at the ends of the float range - denormal volumes, quotients that
+    underflow or overflow, spans of time the clock cannot resolve, dates near the largest float:
+    the kernel may round, it may not fail (its own assertions about dates included)"""
+    import math
+    import usim
+    from usim import time, until, Pipe, UnboundedPipe, Scope
+    rng = random.Random('%s/%s/c03-extreme' % (case['seed'], case['index']))
+    menu = {
+        'UnboundedPipe.transfer(1e-300, 1e30)': lambda: UnboundedPipe().transfer(1e-300, 1e30),
+        'UnboundedPipe.transfer(5e-324, 3)': lambda: UnboundedPipe().transfer(5e-324, 3),
+        'UnboundedPipe.transfer(1e300, 1e-300)': lambda: UnboundedPipe().transfer(1e300, 1e-300),
+        'Pipe(1e-300).transfer(1e-300)': lambda: Pipe(1e-300).transfer(1e-300),
+        'Pipe(1e300).transfer(1e308)': lambda: Pipe(1e300).transfer(1e308),
+        'Pipe(2).transfer(5e-324)': lambda: Pipe(2).transfer(5e-324),
+        'Pipe(2).transfer(1e-320, 1)': lambda: Pipe(2).transfer(1e-320, 1),
+        'time + 5e-324': lambda: time + 5e-324,
+        'time + 1e308': lambda: time + 1e308,
+        'time >= 1e308': lambda: time >= 1e308,
+        'time + 1e-30': lambda: time + 1e-30,
+    }
+    chosen = rng.sample(sorted(menu), rng.randint(2, 5))
+    start = rng.choice([0, 1, 1e6, -1])
+    log = []
+
+    async def user(name):
+        await (time + rng.choice([0, 1]))
+        for _ in range(2):
+            await menu[name]()
+        async with until(time + rng.choice([5e-324, 1e-30, 1])):
+            await menu[name]()
+        log.append(name)
+
+    async def main():
+        async with Scope() as scope:
+            for name in chosen:
+                scope.do(user(name))
+
+    sess = Session()
+    root = main()
+    root.__name__ = root.__qualname__ = 'extreme-values'
+    outcome = sess.run(root, start=start)
+    violations = [dict(v, case=dict(case)) for v in sess.violations
+                  if v['mechanism'].startswith('kernel-')]
+    if outcome[0] != 'ok':
+        violations.append({'mechanism': 'internal-error:%s' % type(outcome[1]).__name__,
+                           'case': dict(case),
+                           'msg': 'operations %s from time %r: run() ended with %r' % (
+                               chosen, start, outcome[1])})
+    elif sorted(log) != sorted(chosen):
+        violations.append({'mechanism': 'large-program-wrong-outcome', 'case': dict(case),
+                           'msg': 'operations %s from time %r: only %s completed' % (
+                               chosen, start, log)})
+    try:
+        root.close()
+    except BaseException:  # noqa: B902
+        pass
+    return {'evals': 1, 'sigs': [], 'violations': violations,
+            'stats': {'extreme_value_programs': 1, 'activations': sess.n}}
+
+
 def run_case(case):
     if case.get('gen') == 'threads':
         return run_threads(case)
+    if case.get('plan') is None and case['index'] % 40 == 37:
+        return extreme_values(case)
     if case.get('plan') is None and case['index'] % 20 == 17:
         return embedded_environments(case)
     if case.get('plan') is None and case['index'] % 40 == 27:
